@@ -504,18 +504,23 @@ class Inliner:
         if callee.args.vararg:
             # f(a, *rest) called as f(x, *ys): rest is ys (one starred argument in last position, nothing else for the vararg)
             npos = len(callee.args.posonlyargs + callee.args.args) - (1 if skip else 0)
-            if not (len(call.args) == npos + 1 and isinstance(call.args[-1], ast.Starred) and not any(isinstance(a, ast.Starred) for a in call.args[:-1])):
+            if len(call.args) < npos or any(isinstance(a, ast.Starred) for a in call.args[:npos]):
                 return None
-            star_val = call.args[-1].value
-            if not isinstance(star_val, ast.Name):
-                return None
+            extra = list(call.args[npos:])
             vname = callee.args.vararg.arg
             callee = copy.copy(callee)
             callee.args = copy.copy(callee.args)
             callee.args.vararg = None
             call = copy.copy(call)
-            call.args = list(call.args[:-1])
-            callee.body = [norm._Rename({vname: star_val.id}).visit(copy.deepcopy(x)) for x in callee.body]
+            call.args = list(call.args[:npos])
+            if len(extra) == 1 and isinstance(extra[0], ast.Starred) and isinstance(extra[0].value, ast.Name):
+                callee.body = [norm._Rename({vname: extra[0].value.id}).visit(copy.deepcopy(x)) for x in callee.body]
+            else:
+                # f(a, *rest) called as f(x, y, *zs, *ws): rest is the tuple (y, *zs, *ws)
+                if vname in norm._assigned_names(callee.body) or not all(norm.is_pure(a.value if isinstance(a, ast.Starred) else a, _PURE_EXT) for a in extra):
+                    return None
+                tup = ast.Tuple(elts=[copy.deepcopy(a) for a in extra], ctx=ast.Load())
+                callee.body = [norm._Subst({vname: tup}).visit(copy.deepcopy(x)) for x in callee.body]
         if any(isinstance(n, (ast.Global, ast.Nonlocal)) for n in ast.walk(callee)):
             return None
         kw_map = None
